@@ -569,9 +569,196 @@ fn eval_c07_c08(case: &Case, c07: bool, acc: &Acc) -> Vec<Violation> {
     out
 }
 
+
+// ---------------------------------------------------------------------------------------------
+// lookahead-set families (C07 / C08 without a grammar): every assignment of k-complete strings
+// to productions -> parol's own automaton construction and minimization -> checks
+// ---------------------------------------------------------------------------------------------
+
+#[derive(serde::Serialize, serde::Deserialize, Clone, Debug)]
+pub struct FamCase {
+    pub k: usize,
+    pub strings: Vec<Vec<u16>>,
+    /// per string: 0 = unused, p+1 = production p
+    pub assign: Vec<u8>,
+}
+
+fn fam_strings(k: usize, nterm: usize, with_short: usize) -> Vec<Vec<u16>> {
+    let alpha: Vec<u16> = (5..5 + nterm as u16).collect();
+    let mut out = strings_over(&alpha, k).into_iter().filter(|w| w.len() == k).collect::<Vec<_>>();
+    // shorter strings terminated by end of input
+    let mut short: Vec<Vec<u16>> = strings_over(&alpha, k - 1).into_iter().map(|mut w| { w.push(END); w }).collect();
+    short.truncate(with_short);
+    out.extend(short);
+    out
+}
+
+thread_local! {
+    static FAM_SCANNER: std::cell::OnceCell<crate::bind::Bound> = const { std::cell::OnceCell::new() };
+}
+
+fn with_scanner<R>(f: impl FnOnce(&crate::bind::Bound) -> R) -> R {
+    FAM_SCANNER.with(|c| {
+        let b = c.get_or_init(|| {
+            let par = "%start S\n%%\nS: { 'a' | 'b' | 'c' };\n";
+            crate::bind::generate_and_bind(par, 1, &GenCfg::default()).map_err(|e| e.msg).expect("scanner grammar").1
+        });
+        f(b)
+    })
+}
+
+fn eval_family(case: &FamCase, c07: bool, acc: &Acc) -> Vec<Violation> {
+    let mut out = vec![];
+    let nprod = *case.assign.iter().max().unwrap_or(&0) as usize;
+    if nprod < 2 {
+        return out;
+    }
+    let la: Vec<Set> = (0..nprod).map(|p| case.strings.iter().zip(case.assign.iter()).filter(|(_, a)| **a as usize == p + 1).map(|(s, _)| s.clone()).collect()).collect();
+    if la.iter().any(|s| s.is_empty()) {
+        return out;
+    }
+    let mkvio = |class: &str, what: String| Violation { class: class.into(), what, case: json!({"family": case}), detail: json!({}) };
+    let max_ti = 9usize;
+    let built = catch(|| {
+        let mut dfa: Option<parol::LookaheadDFA> = None;
+        for (p, set) in la.iter().enumerate() {
+            let strs: Vec<&[u16]> = set.iter().map(|v| v.as_slice()).collect();
+            let kt = parol::KTuplesBuilder::new().k(case.k).max_terminal_index(max_ti).terminal_indices(&strs).build().map_err(|e| e.to_string())?;
+            let d = parol::LookaheadDFA::from_k_tuples(&kt, p);
+            dfa = Some(match dfa {
+                None => d,
+                Some(x) => x.unite(&d).map_err(|e| e.to_string())?,
+            });
+        }
+        let dfa = dfa.unwrap();
+        let compiled = parol::verif_hooks::compile_lookahead_dfa(&dfa);
+        Ok::<_, String>((dfa, compiled))
+    });
+    let (dfa, (prod0, comp, ck)) = match built {
+        Ok(Ok(x)) => x,
+        Ok(Err(e)) => {
+            out.push(mkvio("automaton_construction_fails_on_disjoint_sets", format!("lookahead sets {:?}: {e}", la)));
+            return out;
+        }
+        Err(p) => {
+            out.push(mkvio("automaton_construction_panics", format!("lookahead sets {:?}: {}", la, panic_site(&p))));
+            return out;
+        }
+    };
+    acc.distinct(&(case.k, case.assign.clone(), case.strings.len()));
+    let want = |w: &[u16]| -> Option<usize> { (0..nprod).find(|p| la[*p].contains(w)) };
+    let nterm = case.strings.iter().flatten().filter(|t| **t != END).max().map(|m| (*m - 4) as usize).unwrap_or(2);
+    if c07 {
+        let mut alpha: Vec<u16> = (5..5 + nterm as u16).collect();
+        alpha.push(END);
+        let mut unmin: Vec<(usize, u16, usize, i32)> = vec![];
+        for (from, m) in &dfa.transitions {
+            for (t, to) in m {
+                unmin.push((*from, *t, *to, dfa.states[*to].prod_num));
+            }
+        }
+        for w in strings_over(&alpha, case.k + 1) {
+            if w.iter().rev().skip(1).any(|t| *t == END) {
+                continue;
+            }
+            acc.eval(1);
+            let expect = want(&w);
+            let got_c = run_trans(prod0, &comp, &w).filter(|p| *p >= 0).map(|p| p as usize);
+            let got_u = run_trans(dfa.states[0].prod_num, &unmin, &w).filter(|p| *p >= 0).map(|p| p as usize);
+            if got_c != expect {
+                out.push(mkvio("compiled_automaton_differs_from_lookahead_sets", format!("lookahead sets {:?} (k={}): token string {w:?} reaches production {got_c:?} in the minimized automaton {comp:?}, the sets say {expect:?}", la, case.k)));
+                break;
+            }
+            if got_u != expect {
+                out.push(mkvio("unminimized_automaton_differs_from_lookahead_sets", format!("lookahead sets {:?} (k={}): token string {w:?} reaches {got_u:?}, the sets say {expect:?}", la, case.k)));
+                break;
+            }
+        }
+        if ck != case.k && la.iter().flatten().any(|s| s.len() == case.k) {
+            out.push(mkvio("compiled_k_differs", format!("lookahead sets {:?}: compiled k {ck}, longest string {}", la, case.k)));
+        }
+    } else {
+        // real eval on real token buffers
+        let arena = crate::bind::Arena::default();
+        let trans: Vec<parol_runtime::parser::Trans> = comp.iter().map(|t| parol_runtime::parser::Trans(t.0, t.1, t.2, t.3 as _)).collect();
+        let rdfa = parol_runtime::parser::LookaheadDFA { prod0: prod0 as _, transitions: arena.slice(trans), k: ck };
+        let texts = { let mut a: Vec<String> = ["a", "b", "c"][..nterm].iter().map(|s| s.to_string()).collect(); a.push("x".into()); crate::props::scanner::texts_over(&a, case.k + 1) };
+        with_scanner(|bound| {
+            for text in &texts {
+                let spaced: String = text.chars().map(|c| format!("{c} ")).collect();
+                let r = catch(|| {
+                    let mut ts = bound.token_stream(&spaced, case.k.max(ck).max(1));
+                    let types: Vec<u16> = (0..case.k.max(ck).max(1)).map(|i| ts.lookahead_token_type(i).unwrap_or(9999)).collect();
+                    (types, rdfa.eval(&mut ts, 0).map_err(|e| format!("{e:?}").chars().take(40).collect::<String>()))
+                });
+                acc.eval(1);
+                let (types, res) = match r {
+                    Ok(x) => x,
+                    Err(p) => {
+                        out.push(mkvio("panic_in_eval", format!("lookahead sets {:?} input {text:?}: {}", la, panic_site(&p))));
+                        break;
+                    }
+                };
+                let expect = (0..nprod).find(|p| la[*p].iter().any(|s| types.len() >= s.len() && types[..s.len()] == s[..]));
+                let got = res.as_ref().ok().copied();
+                if got != expect {
+                    let class = if got.is_some() && expect.is_none() { "predicts_although_no_lookahead_string_matches" } else if got.is_none() { "prediction_error_although_lookahead_matches" } else { "predicts_wrong_production" };
+                    out.push(mkvio(class, format!("lookahead sets {:?} (k={}), automaton {comp:?}: buffer {types:?} -> eval {res:?}, the sets say {expect:?}", la, case.k)));
+                    break;
+                }
+            }
+        });
+    }
+    out
+}
+
+fn families(tier: Tier) -> Vec<(usize, Vec<Vec<u16>>, usize)> {
+    // (k, strings, number of productions)
+    match tier {
+        Tier::Quick => vec![(1, fam_strings(1, 3, 1), 3), (2, fam_strings(2, 2, 3), 2), (3, fam_strings(3, 2, 0), 2)],
+        Tier::Thorough => vec![(1, fam_strings(1, 3, 1), 3), (2, fam_strings(2, 2, 3), 3), (2, fam_strings(2, 3, 1), 2), (3, fam_strings(3, 2, 2), 2), (3, fam_strings(3, 2, 0), 3)],
+    }
+}
+
+fn run_families(ctx: &Ctx, acc: &Acc, tier: Tier, c07: bool) {
+    for (k, strings, nprod) in families(tier) {
+        let base = (nprod + 1) as u64;
+        let total = base.pow(strings.len() as u32);
+        acc.count("lookahead_set_families_enumerated", total);
+        (0..total).into_par_iter().for_each(|mut code| {
+            if ctx.expired() {
+                return;
+            }
+            let mut assign = vec![0u8; strings.len()];
+            for a in assign.iter_mut() {
+                *a = (code % base) as u8;
+                code /= base;
+            }
+            // canonical: production numbers appear in increasing order of first use
+            let mut seen = 0u8;
+            for a in &assign {
+                if *a > seen + 1 {
+                    return;
+                }
+                if *a == seen + 1 {
+                    seen += 1;
+                }
+            }
+            let case = FamCase { k, strings: strings.clone(), assign };
+            for v in eval_family(&case, c07, acc) {
+                acc.violation(v);
+            }
+        });
+    }
+}
+
 pub fn run(id: &str, tier: Tier, replay: Option<&str>) -> i32 {
     if let Some(p) = replay {
         let v = read_replay(p);
+        if v.get("family").is_some() {
+            let case: FamCase = serde_json::from_value(v["family"].clone()).expect("bad replay case");
+            return replay_verdict(id, p, || eval_family(&case, id == "C07", &Acc::default()));
+        }
         return match id {
             "C06" => {
                 let case: C06Case = serde_json::from_value(v["case"].clone()).expect("bad replay case");
@@ -664,11 +851,12 @@ pub fn run(id: &str, tier: Tier, replay: Option<&str>) -> i32 {
                     acc.violation(v);
                 }
             });
+            run_families(&ctx, &acc, tier, c07);
             level = "exploration";
             rule = if c07 {
-                format!("every non-terminal of every grammar of the C05 space accepted with K in {ks:?}: all token strings over T + {{$}} of length <= k+1 are run through the automaton recovered from the generated source (minimized) and through the public unminimized LookaheadDFA; oracle = membership in the reference strong-LL(k) lookahead set of each production. Non-trivial = non-terminals with k >= 1.")
+                format!("every non-terminal of every grammar of the C05 space accepted with K in {ks:?}: all token strings over T + {{$}} of length <= k+1 are run through the automaton recovered from the generated source (minimized) and through the public unminimized LookaheadDFA; oracle = membership in the reference strong-LL(k) lookahead set of each production. Non-trivial = non-terminals with k >= 1. Second space, without grammars: every assignment of the k-complete token strings over 2-3 terminals (k = 1, 2, 3; strings of length k and shorter ones ending in $) to 2-3 productions or to none, canonical up to production renaming; parol's own from_k_tuples / unite / minimization (hook H6) build the automaton, which is checked the same way.")
             } else {
-                format!("every non-terminal of every grammar of the C05 space accepted with K in {ks:?}: every token buffer produced by the real scanner/TokenStream from inputs of <= k+2 tokens over T + one foreign token (EOI padded) is given to the real LookaheadDFA::eval; oracle = 'the buffer begins with a reference lookahead string of p' / 'begins with none'. Non-trivial = non-terminals with >= 2 productions on which both Ok and Err occur.")
+                format!("every non-terminal of every grammar of the C05 space accepted with K in {ks:?}: every token buffer produced by the real scanner/TokenStream from inputs of <= k+2 tokens over T + one foreign token (EOI padded) is given to the real LookaheadDFA::eval; oracle = 'the buffer begins with a reference lookahead string of p' / 'begins with none'. Non-trivial = non-terminals with >= 2 productions on which both Ok and Err occur. Second space, without grammars: every assignment of the k-complete token strings over 2-3 terminals (k = 1, 2, 3) to 2-3 productions or to none; the minimized automaton parol builds for it is evaluated by the real eval on every buffer of <= k+1 tokens over the terminals plus a foreign token.")
             };
             extra = json!({});
         }
